@@ -180,7 +180,7 @@ class Report:
         self.violations = []     # (key, what, replay dict)
         self.known_hit = []
         self.inconclusive = []
-        shutil.rmtree(os.path.join(VERIF, 'replays', pid), ignore_errors=True)
+        if not os.environ.get('VERIF_EVIDENCE_DIR'): shutil.rmtree(os.path.join(VERIF, 'replays', pid), ignore_errors=True)
         self.known = [k for k in load_known() if k.get('property') == pid and k.get('status', 'open') == 'open']
 
     def violation(self, key, what, replay):
@@ -198,8 +198,9 @@ class Report:
         self.inconclusive.append(what)
 
     def finish(self):
-        os.makedirs(os.path.join(VERIF, 'evidence'), exist_ok=True)
-        rdir = os.path.join(VERIF, 'replays', self.pid)
+        evdir = os.environ.get('VERIF_EVIDENCE_DIR') or os.path.join(VERIF, 'evidence')
+        os.makedirs(evdir, exist_ok=True)
+        rdir = os.path.join(os.path.dirname(evdir), 'replays', self.pid) if os.environ.get('VERIF_EVIDENCE_DIR') else os.path.join(VERIF, 'replays', self.pid)
         out_lines = []
         for key, what in self.known_hit:
             out_lines.append('KNOWN-FINDING: property=%s %s [%s]' % (self.pid, what, key))
@@ -221,7 +222,7 @@ class Report:
         ev = dict(property_id=self.pid, tier=self.tier, seed=self.seed, level=self.level, coverage=cov,
                   assumptions=self.assumptions, wall_s=round(time.time() - self.t0, 2), violations=len(self.violations),
                   repo_hash=repo_hash())
-        json.dump(ev, open(os.path.join(VERIF, 'evidence', self.pid + '.json'), 'w'), indent=1, default=str)
+        json.dump(ev, open(os.path.join(evdir, self.pid + '.json'), 'w'), indent=1, default=str)
         print('\n'.join(out_lines))
         if self.violations:
             return 1
